@@ -71,6 +71,10 @@ func Generic(x *vrt.Exec, o Opts) []*engine.Finding {
 		out = append(out, &engine.Finding{Sig: CrashSig(x.Crash), Msg: "unrecovered panic (process exit in production): " + x.Crash})
 		return out
 	}
+	if x.Livelock != "" {
+		out = append(out, &engine.Finding{Sig: "livelock{" + x.Livelock + "}", Msg: fmt.Sprintf("the execution never ends: thread %s keeps running (%d steps) without blocking for good, repeating %s; a goroutine that spins like this burns a CPU and is never reclaimed", x.LivelockThread, x.Steps, x.Livelock)})
+		return out
+	}
 	if x.Deadlock && !o.NoDeadlock {
 		var parts []string
 		for _, b := range x.BlockedOps {
